@@ -44,6 +44,12 @@ type Plan struct {
 	// notice the failure - the crossing write and all later writes of either end report success but
 	// go nowhere - and both ends learn about it only from their next Read (EOF).
 	CutSilent bool `json:"cut_silent,omitempty"`
+	// Capacity > 0 bounds the bytes in flight per direction (a link with flow control: a Write blocks
+	// while the peer does not read). Deadlines set by the code under test are then honoured
+	// *logically*: when neither end can make progress any more, a blocked call whose end has a
+	// deadline armed returns a timeout error at once (waiting out the wall-clock minute would change
+	// nothing); if no end has one, that is a deadlock.
+	Capacity int `json:"capacity,omitempty"`
 	// Edits per direction (sorted by Off).
 	Edits [2][]Edit `json:"edits"`
 	// WriteDelay per Write call per direction (pacing).
@@ -84,6 +90,10 @@ type Link struct {
 	closeCnt   [2]int
 	cut        bool
 	killed     bool
+	blockedW   [2]bool      // end i blocked in Write (outbound queue full)
+	deadline   [2]time.Time // armed by SetDeadline & co. of end i
+	fire       [2]bool      // the blocked call of end i must return a timeout
+	timeouts   [2]int
 	blocked    [2]bool // end i blocked in Read
 	deadlock   bool
 	wrCalls    [2]int
@@ -138,6 +148,76 @@ func (e *End) Write(p []byte) (int, error) {
 	l.mu.Lock()
 	defer l.mu.Unlock()
 	l.wrCalls[e.idx]++
+	if l.plan.Capacity <= 0 || l.scripted {
+		return e.writeLocked(p)
+	}
+	total := 0
+	for {
+		room := l.plan.Capacity - len(l.q[d])
+		gone := l.closed[e.idx] || l.cut || l.closed[1-e.idx] || l.deadlock
+		if room <= 0 && !gone {
+			l.blockedW[e.idx] = true
+			if l.resolveStuck(e.idx) {
+				l.blockedW[e.idx] = false
+				l.timeouts[e.idx]++
+				return total, errTimeout
+			}
+			if l.deadlock {
+				l.blockedW[e.idx] = false
+				return total, ErrPeerClosed
+			}
+			l.cond.Wait()
+			l.blockedW[e.idx] = false
+			if l.fire[e.idx] {
+				l.fire[e.idx] = false
+				l.timeouts[e.idx]++
+				return total, errTimeout
+			}
+			continue
+		}
+		chunk := p
+		if !gone && len(chunk) > room {
+			chunk = p[:room]
+		}
+		n, err := e.writeLocked(chunk)
+		total += n
+		p = p[len(chunk):]
+		if err != nil || len(p) == 0 || n < len(chunk) {
+			return total, err
+		}
+	}
+}
+
+// stuckEnd reports whether end i is blocked in a call that the present state cannot satisfy.
+func (l *Link) stuckEnd(i int) bool {
+	in, out := 1-i, i // direction indexes: end i reads direction 1-i and writes direction i
+	return (l.blocked[i] && len(l.q[in]) == 0) || (l.blockedW[i] && l.plan.Capacity > 0 && len(l.q[out]) >= l.plan.Capacity)
+}
+
+// resolveStuck is called (with the lock held) by end me when it is about to wait. If the peer is
+// stuck as well nobody can ever make progress: an end with an armed deadline gets its timeout (me
+// first: returns true), otherwise the link is declared deadlocked.
+func (l *Link) resolveStuck(me int) bool {
+	if !l.stuckEnd(me) || !l.stuckEnd(1-me) || l.cut || l.closed[0] || l.closed[1] {
+		return false
+	}
+	switch {
+	case !l.deadline[me].IsZero():
+		return true
+	case !l.deadline[1-me].IsZero():
+		l.fire[1-me] = true
+		l.cond.Broadcast()
+	case l.plan.DetectDeadlock:
+		l.deadlock = true
+		l.cond.Broadcast()
+	}
+	return false
+}
+
+// writeLocked accepts p at once (no flow control); the lock is held.
+func (e *End) writeLocked(p []byte) (int, error) {
+	l := e.l
+	d := e.dirOut()
 	if l.closed[e.idx] {
 		return 0, net.ErrClosed
 	}
@@ -235,15 +315,23 @@ func (e *End) Read(p []byte) (int, error) {
 			return 0, io.EOF
 		}
 		l.blocked[e.idx] = true
-		if l.plan.DetectDeadlock && l.blocked[1-e.idx] && len(l.q[0]) == 0 && len(l.q[1]) == 0 {
-			// both ends wait for the other and nothing is in flight: nobody can ever make progress
-			l.deadlock = true
+		if l.resolveStuck(e.idx) {
 			l.blocked[e.idx] = false
-			l.cond.Broadcast()
+			l.timeouts[e.idx]++
+			return 0, errTimeout
+		}
+		if l.deadlock {
+			// both ends wait for the other and nothing can move: nobody can ever make progress
+			l.blocked[e.idx] = false
 			return 0, io.EOF
 		}
 		l.cond.Wait()
 		l.blocked[e.idx] = false
+		if l.fire[e.idx] {
+			l.fire[e.idx] = false
+			l.timeouts[e.idx]++
+			return 0, errTimeout
+		}
 	}
 	k := len(p)
 	r := l.rng[e.idx]
@@ -292,11 +380,18 @@ type addr string
 func (a addr) Network() string { return "vpipe" }
 func (a addr) String() string  { return string(a) }
 
-func (e *End) LocalAddr() net.Addr                { return addr([]string{"A", "B"}[e.idx]) }
-func (e *End) RemoteAddr() net.Addr               { return addr([]string{"B", "A"}[e.idx]) }
-func (e *End) SetDeadline(t time.Time) error      { return nil } // accepted and ignored
-func (e *End) SetReadDeadline(t time.Time) error  { return nil }
-func (e *End) SetWriteDeadline(t time.Time) error { return nil }
+func (e *End) LocalAddr() net.Addr  { return addr([]string{"A", "B"}[e.idx]) }
+func (e *End) RemoteAddr() net.Addr { return addr([]string{"B", "A"}[e.idx]) }
+
+// Deadlines are recorded, not timed: see Plan.Capacity.
+func (e *End) SetDeadline(t time.Time) error {
+	e.l.mu.Lock()
+	e.l.deadline[e.idx] = t
+	e.l.mu.Unlock()
+	return nil
+}
+func (e *End) SetReadDeadline(t time.Time) error  { return e.SetDeadline(t) }
+func (e *End) SetWriteDeadline(t time.Time) error { return e.SetDeadline(t) }
 
 // ---- modem emulation -------------------------------------------------------------------------
 
@@ -348,13 +443,14 @@ type State struct {
 	ReadCalls  [2]int
 	WriteCalls [2]int
 	InFlight   [2]int
+	Timeouts   [2]int // calls of end i that returned a (logical) deadline timeout
 }
 
 func (l *Link) State() State {
 	l.mu.Lock()
 	defer l.mu.Unlock()
 	return State{Written: l.written, Delivered: l.delivered, Closed: l.closed, CloseCalls: l.closeCnt, Cut: l.cut,
-		Deadlock: l.deadlock, ReadCalls: l.rdCalls, WriteCalls: l.wrCalls, InFlight: [2]int{len(l.q[0]), len(l.q[1])}}
+		Deadlock: l.deadlock, ReadCalls: l.rdCalls, WriteCalls: l.wrCalls, InFlight: [2]int{len(l.q[0]), len(l.q[1])}, Timeouts: l.timeouts}
 }
 
 // Transcript returns the bytes written in direction d (as the sender wrote them).
